@@ -192,7 +192,7 @@ def run(tier, seed):
     # transcription fidelity sample: all exhaustive small strings + small structured + a few mid-size
     small = [r for r in recs if len(r["data"]) <= 120]
     mid = [r for r in recs if 120 < len(r["data"]) <= (700 if thorough else 450) and by_id[r["id"]]["kind"] != "rand256"]
-    trs = small + rng.sample(mid, min(len(mid), 60 if thorough else 14))
+    trs = small + rng.sample(mid, min(len(mid), 60 if thorough else 6))
     trf = os.path.join(wd, "transcr.ndjson")
     core.write_ndjson(trf, trs)
 
@@ -200,9 +200,9 @@ def run(tier, seed):
     jobs = [("streams", lambda: _tlc("LZSS_streams_big" if thorough else "LZSS_streams", timeout=2400)),
             ("records", lambda: _tlc("LZSS_records", {"RECORDS": recf}, timeout=3000, heap="24g" if thorough else None)),
             ("transcr", lambda: _tlc("LZSS_transcr", {"RECORDS": trf}, timeout=2400, xss=True)),
-            ("scaledA", lambda: _tlc("LZSS_scaled_big" if thorough else "LZSS_scaled", timeout=2400)),
             ("scaledB", lambda: _tlc("LZSS_scaledB_big" if thorough else "LZSS_scaledB", timeout=2400))]
     if thorough:
+        jobs.append(("scaledA", lambda: _tlc("LZSS_scaled_big", timeout=2400)))
         jobs.append(("scaled3", lambda: _tlc("LZSS_scaled3", timeout=2400)))
     results = {}
     with concurrent.futures.ThreadPoolExecutor(max_workers=3) as ex:
@@ -227,7 +227,7 @@ def run(tier, seed):
 
     # ---- streams: vacuity guard on the model, drift guard against P ------------------------
     streams = results["streams"].printed
-    if len(streams) < 900:
+    if len(streams) < 600:
         core.die("streams model published only %d cases" % len(streams))
     scnt, smarks = agg(streams)
     for m in ALL_MARKS:
